@@ -62,7 +62,12 @@ func (a *verifAssets) Labels() *flows.LabelAssets {
 	return flows.NewLabelAssets(nil)
 }
 func (a *verifAssets) Templates() *flows.TemplateAssets { return flows.NewTemplateAssets(nil) }
-func (a *verifAssets) Resthooks() *flows.ResthookAssets { return flows.NewResthookAssets(nil) }
+func (a *verifAssets) Resthooks() *flows.ResthookAssets {
+	if a.resthooks != nil {
+		return a.resthooks
+	}
+	return flows.NewResthookAssets(nil)
+}
 func (a *verifAssets) OptIns() *flows.OptInAssets       { return flows.NewOptInAssets(nil) }
 
 func (a *verifAssets) Get(uuid assets.FlowUUID) (flows.Flow, error) {
